@@ -2,6 +2,7 @@ CONSTANTS
   Thresholds = {0}
   Results = {"ok"}
   MaxLen = 0
+  WithB = TRUE
   Defects = {}
 SPECIFICATION TraceSpec
 POSTCONDITION Accepted
